@@ -2808,8 +2808,8 @@ class FnTranslator:
                 term, t = self.expr(x, env, pre, ("int", "usize"))
             if want is not None and want[0] in ("vec", "map", "umap", "set", "uset"): return "[]", want, "val"
             raise RsError("%s::%s() without a known collection type (annotate the let)" % (segs[0], name))
-        if segs in (["Box", "new"], ["Arc", "new"], ["Rc", "new"]) and len(args) == 1:
-            # (round 9) `Box<T>` / `Arc<T>` are `T` (see rsparse / resolve): their constructor is the identity
+        if segs in (["Box", "new"], ["Arc", "new"], ["Rc", "new"], ["Mutex", "new"], ["RefCell", "new"]) and len(args) == 1:
+            # (round 9) `Box<T>` / `Arc<T>` / `Mutex<T>` are `T` (see rsparse / resolve): their constructor is the identity
             term, t = self.expr(args[0], env, pre, want)
             return term, t, "val"
         if segs == ["drop"] and len(args) == 1:
